@@ -14,7 +14,7 @@ CONSTANTS
   ExpAge = 3
   CasAge = 3
   OpsEnabled = {"new", "drop", "upgrade", "downgrade", "dropweak", "wclone", "wsnap", "wsupgrade", "counted", "pin", "collect"}
-  Scen = "weak"
+  Scen = "chainw"
   Fix = {"pin", "inc", "mark", "stamp", "wmany", "newmany0"}
   Mut = {}
   GenDepth = 90
